@@ -7,13 +7,14 @@
                  (recomputed from the pod specs) stay within the allocatable amount
      113         law: the hypotheses of cycle_no_overcommit / cycle_sums_within_allocatable (world_ok,
                  nodes_acct) hold of the generated cycle
+     115         law: the initial cache of a bind case satisfies cinv (hypothesis of bind_events_safe)
      4           preempt / reclaim / allocate / backfill action lists: the initial node ledgers
      114         law: no node overcommitted (now / once terminating pods are gone) after them *)
 From stdpp Require Import gmap.
 From Coq Require Import ZArith List.
 From V Require Import Base.Codec Base.Res Base.ResCodec Sched.LedgerModel Sched.StmtModel Sched.LedgerCodec
                       Sched.LedgerInv Sched.GangModel Sched.CycleModel Sched.CycleCodec Sched.CycleLaws Sched.CycleEntry
-                      Sched.NodeCapCheck Sched.NodeSumLemmas Sched.NodeSumCheck C02.BindModel.
+                      Sched.NodeCapCheck Sched.NodeSumLemmas Sched.NodeSumCheck C02.BindModel C02.BindLemmas C02.BindEx.
 Import ListNotations.
 Open Scope Z_scope.
 
@@ -161,7 +162,11 @@ Definition entry (sel : Z) (toks : list Z) : list Z :=
   | 3 => match run_dec dBindCase toks with Some b => run_agent b | None => bad_input end
   | 4 => match run_dec dEvictSpec toks with Some x => run_evict_initial x | None => bad_input end
   | 114 => match run_dec dEvictLaw toks with Some (e, ns, ts, h) => eBool (law_nodes_held e ns ts h) | None => bad_input end
+  | 115 => match run_dec dBindCase toks with Some b => eBool (cinv_b (bc_eps b) (cache_of b)) | None => bad_input end
   | 112 => match run_dec dBindLaw toks with Some (b, h) => eBool (law_bind b h) | None => bad_input end
+  (* 116: law 112 again, on the held sets WITHOUT the pods a known finding explains (emitted unsigned
+     next to a signed 112, so that any other overcommit in the same history is still reported) *)
+  | 116 => match run_dec dBindLaw toks with Some (b, h) => eBool (law_bind b h) | None => bad_input end
   | 113 => match run_dec dLawIn toks with Some (c, _, _) => eBool (world_ok_b (cc_eps c) (world_of c) && nodes_acct_b (nodes (w_sess (world_of c)))) | None => bad_input end
   | _ => cycle_entry sel toks
   end.
